@@ -749,3 +749,61 @@ Proof.
   - rewrite MD, bytes_eqb_refl. now rewrite orb_true_r.
   - rewrite MD, bytes_eqb_refl. now rewrite !orb_true_r.
 Qed.
+
+(* ------------------------------------------------------------------ merge *)
+(* MetadataMap::merge is http's Extend: every name of [o] replaces the values [m] had for it,
+   all of o's values kept in their order; every other name of [m] is untouched *)
+Theorem merge_pointwise m o k :
+  hm_get_all (merge m o) k = match hm_get_all o k with [] => hm_get_all m k | l => l end.
+Proof. apply get_all_extend_list. Qed.
+
+(* custom metadata in the TRAILERS of a successful unary / client-streaming response: every
+   name of the trailers shows all its values in order in Response::metadata(), binary values
+   decode whether the peer padded them or not; a header name the trailers do not use keeps its
+   header values; likewise for request trailers folded into the handler's request metadata *)
+Theorem trailers_merged hdrs t k :
+  (hm_get_all t k <> [] ->
+     hm_get_all (client_unary_response_metadata hdrs (Some t)) k = hm_get_all t k /\
+     hm_get_all (server_unary_request_metadata hdrs (Some t)) k = hm_get_all t k) /\
+  (hm_get_all t k = [] ->
+     hm_get_all (client_unary_response_metadata hdrs (Some t)) k = hm_get_all hdrs k /\
+     hm_get_all (server_unary_request_metadata hdrs (Some t)) k = hm_get_all hdrs k) /\
+  hm_get_all (client_unary_response_metadata hdrs None) k = hm_get_all hdrs k /\
+  hm_get_all (server_unary_request_metadata hdrs None) k = hm_get_all hdrs k.
+Proof.
+  unfold client_unary_response_metadata, server_unary_request_metadata, from_headers.
+  rewrite merge_pointwise. split; [|split; [|split; reflexivity]].
+  - intros H. destruct (hm_get_all t k); [congruence|]. split; reflexivity.
+  - intros ->. split; reflexivity.
+Qed.
+
+Theorem trailers_binary_received hdrs t raw k (pbs : list (bool * list N)) :
+  hn_norm raw = Some k -> bin_suffix k = true -> pbs <> [] ->
+  forallb (fun pb => bytes_ok (snd pb)) pbs = true ->
+  hm_get_all t k = map (fun pb => enc (fst pb) (snd pb)) pbs ->
+  map bin_decode (get_all_bin (client_unary_response_metadata hdrs (Some t)) raw) =
+  map (fun pb => Some (snd pb)) pbs.
+Proof.
+  intros N S NE B G.
+  assert (G' : hm_get_all (client_unary_response_metadata hdrs (Some t)) k =
+               map (fun pb => enc (fst pb) (snd pb)) pbs).
+  { destruct (trailers_merged hdrs t k) as [H _].
+    destruct H as [H _]; [rewrite G; destruct pbs; [congruence|discriminate]|]. now rewrite H. }
+  exact (binary_from_peer raw k pbs (client_unary_response_metadata hdrs (Some t)) N S B G').
+Qed.
+
+(* an error status arriving in the trailers of a unary call: the response headers are folded
+   into its metadata, so a name the headers also use shows the HEADER values *)
+Theorem error_fold_pointwise hdrs t m k :
+  client_unary_error_metadata hdrs t = Some m ->
+  hm_get_all m k =
+  match hm_get_all hdrs k with
+  | [] => if bytes_eqb k hdr_grpc_status || bytes_eqb k hdr_grpc_message || bytes_eqb k hdr_grpc_status_details
+          then [] else hm_get_all t k
+  | l => l
+  end.
+Proof.
+  unfold client_unary_error_metadata. destruct (from_header_map t) as [st|] eqn:F; [|discriminate].
+  intros [= <-]. rewrite merge_pointwise. unfold from_headers.
+  now rewrite (from_header_map_md t st F k).
+Qed.
